@@ -474,15 +474,18 @@ def inv_4(O, d):  # convert_4_5: connection ids
 INV = {20: inv_20, 19: inv_19, 18: inv_18, 17: inv_17, 16: inv_16, 15: inv_15, 14: inv_14, 13: inv_13, 12: inv_12, 11: inv_11, 10: inv_10, 9: inv_9,
        8: inv_8, 7: inv_7, 6: inv_6, 5: inv_5, 4: inv_4}
 # oldest format version that could hold a flow of this kind (HTTP and TCP flows predate version 4)
-MIN_VERSION = {"http-req": 4, "http-resp": 4, "http-err": 4, "tcp": 4, "tcp-err": 4, "ws": 12, "dns-req": 17, "dns-resp": 17, "dns-err": 17, "udp": 19}
+MIN_VERSION = {"http-req": 4, "http-resp": 4, "http-err": 4, "tcp": 4, "tcp-err": 4, "ws": 12, "dns-req": 17, "dns-resp": 17, "dns-err": 17, "udp": 18}
 
 
 def old_state(X, kind, k, variant=True, limit=1):
     """current state of a test flow of `kind`, with solver-chosen content variants, pushed back to version k"""
     f = F.base_flow(kind)
     if variant:
-        v = X.choose("variant", ["plain", "marked", "replay", "quic", "no-body", "tls", "tls-custom-sni"])
-        if v == "marked":
+        v = X.choose("variant", ["plain", "marked", "replay", "quic", "no-body", "tls", "tls-custom-sni"] + (["udp-transport"] if kind.startswith("dns") or kind == "udp" else []))
+        if v == "udp-transport":
+            f.client_conn.transport_protocol = f.server_conn.transport_protocol = "udp"
+            X.reach("udp-transport")
+        elif v == "marked":
             f.marked = ":default:"
         elif v == "replay":
             f.is_replay = X.choose("replay_dir", ["request", "response"])
@@ -539,6 +542,9 @@ def _project(st, k):
         for a in ("tls", "alpn", "alpn_offers", "cipher_list", "certificate_list", "error"):
             p["client"][a], p["server"][a] = cc[a], sc[a]
         p["client"]["sockname"] = cc["sockname"]
+    if k >= 17:
+        # DNS (format 17) and raw UDP (format 18) flows recorded their transport: a UDP exchange stays a UDP exchange
+        p["client"]["transport_protocol"], p["server"]["transport_protocol"] = cc["transport_protocol"], sc["transport_protocol"]
     if k >= 14:
         p["comment"] = st["comment"]
     if k >= 13:
@@ -638,7 +644,7 @@ def obligations(tier):
              bounds=f"{len(kinds)} flow shapes x every old format version from the first that could hold the shape (HTTP/TCP 4, WebSocket 12, DNS 17, UDP 19) to 20 x 6 "
                     f"content variants x <= {1 if q else 2} solver-chosen deviation(s) from the default shape among the optional shapes of the inverse steps (bytes hosts, sni True, missing transport_protocol, None lists, mode, "
                     "first_line_format, is_replay placement, response without timestamps, state attribute)",
-             encoded=ENCODED, must_reach=["migrated", "from-4", "from-11", "from-18", "from-20", "kind-http", "kind-tcp", "kind-ws", "kind-dns", "kind-udp"],
+             encoded=ENCODED, must_reach=["migrated", "from-4", "from-11", "from-18", "from-20", "kind-http", "kind-tcp", "kind-ws", "kind-dns", "kind-udp", "udp-transport"],
              parallel_depth=3, budget_s=1800 if q else 7200),
         Concrete("inverse-validation", validate_inverses, bounds="synthetic version-10/11 HTTP states vs shipped dumpfile-10 / dumpfile-7: key sets of state, client_conn, "
                  "server_conn, request"),
